@@ -173,11 +173,17 @@ impl TypeCheckable for FunctionCall {
 
 impl fmt::Display for FunctionCall {
     fn fmt(&self, f: &mut fmt::Formatter<'_>) -> fmt::Result {
-        let builtin = std_fn_to_string(self);
-        if let Some(string) = builtin {
-            return write!(f, "{}", string);
-        }
+        // the `a..b` spelling of range() only parses in iterator position, see
+        // `FunctionCall::to_string_as_iterator`
         write!(f, "{}", default_rooc_function_to_string(self))
+    }
+}
+
+impl FunctionCall {
+    /// Source form of the call where an iterator is expected (`i in <here>`),
+    /// the only position in which the grammar accepts the range operators.
+    pub fn to_string_as_iterator(&self) -> String {
+        std_fn_to_string(self).unwrap_or_else(|| self.to_string())
     }
 }
 
